@@ -95,6 +95,12 @@ def correspondence(d):
         n += 1
         m = model.get(k)
         b = m.split(" ")[0] if m else None
+        if b in ("local-ok", "local-err"):
+            # answered from the local store without a proposal; the shortcut is taken only behind the
+            # read-index barrier (node.isLocalStoreCurrent), otherwise the command is proposed
+            if a not in ("noprop-" + b[6:], "prop"):
+                mm.append((k, v, m))
+            continue
         if a != b:
             mm.append((k, v, m))
             continue
@@ -107,7 +113,7 @@ def correspondence(d):
             # what the leader put into the log: the model's proposed command must be the one the
             # harness fed to the replicas (same argument count and bytes, except GEOADD's scores)
             ak = "A" + k[1:] + ".1"
-            if ak in cases and not cases[k].split("\t")[1].lower().startswith("67656f616464"):
+            if ak in cases and unh(cases[k].split("\t")[1])[0].lower() != b"geoadd":
                 want = cases[ak].split("\t")[2]
                 got = m.split(" ")[1] if " " in m else ""
                 mw, mg = want.split(","), got.split(",")
@@ -153,6 +159,11 @@ def oracle(d, rc):
             f["signature"] = sig
         fails.append(f)
 
+    model = rd(os.path.join(d, "model.out"))
+
+    def name_of(vid):
+        return unh(vec[vid][1])[0].decode("latin1").lower() if vid in vec else "?"
+
     verdict_of = {}
     for k, v in orc.items():
         f = kv(v)
@@ -177,11 +188,23 @@ def oracle(d, rc):
             if f.get("reply") == "timeout":
                 notes["no reply: " + name] += 1
         elif k[0] == "A":
-            if f.get("sandbox") in ("panic", "hung") and f.get("verdict") == "prop":
-                vid = k[1:].split(".")[0]
-                mk("apply-%s-%s" % (f.get("sandbox"), vid), [vid],
-                   "a vector the leader accepted makes ApplyRaftRequest %s: %s" % (f.get("sandbox"), bytes.fromhex(f.get("msg", "") if f.get("msg", "-") != "-" else "").decode("latin1")))
-            hist["sandbox:" + f.get("sandbox", "?")] += 1
+            vid = k[1:].split(".")[0]
+            # acceptable = the live leader proposed it, or the model's leader accepts its shape (the live
+            # node may have answered from a state dependent shortcut without proposing)
+            acceptable = f.get("verdict") == "prop" or (model.get("L" + vid, "").split(" ")[0] in ("prop", "local-ok", "local-err"))
+            sb = f.get("sandbox")
+            if sb in ("panic", "hung") and acceptable:
+                mk("apply-%s-%s" % (sb, vid), [vid],
+                   "a vector the leader accepts makes ApplyRaftRequest %s: %s" % (sb, bytes.fromhex(f.get("msg", "") if f.get("msg", "-") != "-" else "").decode("latin1")))
+            if sb in ("error-changed", "leak"):
+                et = bytes.fromhex(f.get("err", "") if f.get("err", "-") != "-" else "").decode("latin1")
+                if acceptable:
+                    mk("apply-%s-%s" % (sb, vid), [vid],
+                       "applied directly, a vector the leader accepts answered an error (%s) but %s (engine key %s)" % (
+                           et, "changed the committed state" if sb == "error-changed" else "left writes in the shared batch that the next command committed", f.get("key")))
+                else:
+                    notes["direct apply of a leader-REJECTED vector: error (%s) with %s: %s" % (et, sb, name_of(vid))] += 1
+            hist["sandbox:" + (sb or "?")] += 1
         elif k[0] == "P":
             hist["pair:" + f.get("pair", "?")] += 1
             if f.get("pair") != "eq":
@@ -200,9 +223,9 @@ def oracle(d, rc):
             where = jl[-1].split("\t")[1]
             vid = where[1:].split(".")[0]
             if where[0] == "P" or verdict_of.get(vid) == "prop":
-                mk("apply-hung-" + vid, [vid] if where[0] != "P" else [], "ApplyRaftRequest does not return (20 s) on a vector the leader accepted")
+                mk("apply-hung-" + vid, [vid] if where[0] != "P" else [], "ApplyRaftRequest does not return (60 s) on a vector the leader accepted")
             else:
-                mk("sandbox-hung-" + vid, [vid], "ApplyRaftRequest does not return (20 s) on a vector fed directly to apply (the leader rejected it)")
+                mk("sandbox-hung-" + vid, [vid], "ApplyRaftRequest does not return (60 s) on a vector fed directly to apply (the leader rejected it)")
         elif jl:
             vid = jl[-1].split("\t")[0]
             tail = ""
@@ -215,6 +238,8 @@ def oracle(d, rc):
                 tail = txt[i:i + 1500] if i >= 0 else txt[-600:]
             mk("process-died-" + vid, [vid], "the server process died (exit %s) while this vector was being handled" % rc, extra=dict(trace=tail))
     end = kv(orc.get("END", ""))
+    if end.get("stalls", "0") != "0":
+        notes["apply loop answered a probe later than 2 s (load), recovered: %s times" % end["stalls"]] += 1
     if end.get("untemplated"):
         notes["registered commands without a hand-written template (generic templates used): " + end["untemplated"]] += 1
     return fails, hist, notes, vec
@@ -287,7 +312,7 @@ def run(ctx):
     else:
         for i, p in enumerate(sorted(glob.glob(os.path.join(vlib.VERIF, "corpus", "C11", "*.tsv")))):
             jobs.append(("corpus-" + os.path.basename(p)[:-4], "-replay %s -port %d" % (p, pbase + 3 * len(jobs))))
-        nproc, n = (4, 6000) if quick else (12, 100000)
+        nproc, n = (4, 4000) if quick else (12, 60000)
         for i in range(nproc):
             eng = "mem" if (quick or i % 3 != 2) else "pebble"
             jobs.append(("fresh-%d" % i, "-seed %d -n %d -engine %s -port %d%s" % (ctx.seed * 1000 + i, n, eng, pbase + 3 * len(jobs), " -big" if i == 0 else "")))
@@ -331,7 +356,7 @@ def run(ctx):
                                 apply_v1=impl.get("A" + vid + ".1"), apply_v2=impl.get("A" + vid + ".2")))
 
     def search():
-        r2 = run_epochs(ctx, [("search-%d" % i, "-seed %d -n 30000 -port %d" % (ctx.seed * 1000 + 500 + i, pbase + 300 + 3 * i)) for i in range(6)], avoid)
+        r2 = run_epochs(ctx, [("search-%d" % i, "-seed %d -n 30000 -port %d" % (ctx.seed * 1000 + 500 + i, pbase + 300 + 3 * i)) for i in range(4)], avoid)
         out = []
         for sub, d, rc, o in r2:
             f, _, _, _ = oracle(d, rc)
